@@ -227,6 +227,26 @@ def catalogue():
                                [call("P", binds={"x": self_("x")}, vol=True),
                                 call("C1", binds={"f": ref("P", "ms", "f")})],
                                {"a": ref("C1", "r")})], "TOP", {"x": 1}))
+    # 18. the whole result of a stage (a struct of its outputs, files among them) bound to a
+    #     consumer's struct parameter, to a top-level output and to a pipeline retain
+    OUTS = struct("OUTS", "file f, txt g, int n")
+    P.append(program("vf_whole", [OUTS],
+                     [P_files("P"), P_files("Q"), C_file("C1", "OUTS"), SLOW("S1"), SLOW("S2"),
+                      stage("C2", "OUTS f, int w", "string r", {"r": INST})],
+                     [pipeline("TOP", "int x", "string a, string b",
+                               [call("P", binds={"x": self_("x")}, vol=True),
+                                call("Q", binds={"x": self_("x")}, vol=True),
+                                call("S1", binds={"x": self_("x")}),
+                                call("S2", binds={"x": ref("S1", "y")}),
+                                call("C1", binds={"f": ref("P")}),
+                                call("C2", binds={"f": ref("Q"), "w": ref("S2", "y")})],
+                               {"a": ref("C1", "r"), "b": ref("C2", "r")})], "TOP", {"x": 1}, filetypes=ft))
+    P.append(program("vf_whole_top", [OUTS],
+                     [P_files("P"), C_file("C1")],
+                     [pipeline("TOP", "int x", "string a, OUTS all",
+                               [call("P", binds={"x": self_("x")}, vol=True),
+                                call("C1", binds={"f": ref("P", "f")})],
+                               {"a": ref("C1", "r"), "all": ref("P")})], "TOP", {"x": 1}, filetypes=ft))
     return P
 
 
